@@ -213,6 +213,7 @@ type world struct {
 	staleAllowed bool          // a SetHead / restart left head block != head header at some point
 	shStale      map[int]int   // tx -> height of a lookup entry left behind by SetHead
 	shReported   map[int]bool
+	staleAPI     map[int]common.Hash // tx -> block hash of a stale cached lookup already reported
 }
 
 func (w *world) buildBlocks() {
@@ -465,6 +466,7 @@ type opInfo struct {
 	kind        int          // 0 InsertChain, 1 InsertBlockWithoutSetHead, 2 SetCanonical, 3 SetHead, 4 restart
 	before      []int        // canonical chain (block ids by height) before the operation
 	knownBefore map[int]bool // blocks named by the operation that were stored with state before it
+	splitBefore bool         // head block != head header when the operation started
 }
 
 func logBlock(x int64) int { return int(x / (4096 * 4096)) }
@@ -569,6 +571,36 @@ func (w *world) oracle(e evs, op opInfo, res *Result) (real, known []string) {
 		} else if isCanon {
 			addReal("canonical tx %d (block #%d) does not resolve", t, n)
 		}
+		// the public, cached path must answer from the CURRENT canonical chain as well
+		if alk, atx := w.bc.GetCanonicalTransaction(h); alk != nil {
+			okAPI := isCanon && int(alk.BlockIndex) == n && alk.BlockHash == w.blocks[chain[n]].Hash() &&
+				atx != nil && atx.Hash() == h && rawdb.ReadCanonicalHash(w.db, alk.BlockIndex) == alk.BlockHash
+			if okAPI {
+				if blk := rawdb.ReadBlock(w.db, alk.BlockHash, alk.BlockIndex); blk == nil || int(alk.Index) >= len(blk.Transactions()) || blk.Transactions()[alk.Index].Hash() != h {
+					okAPI = false
+				}
+			}
+			if okAPI || w.staleAPI[t] != alk.BlockHash {
+				delete(w.staleAPI, t)
+			}
+			switch {
+			case okAPI:
+			case w.staleAPI[t] == alk.BlockHash:
+				// the same stale cached answer, already reported at the operation that left it behind
+			case linkedOnly && int(alk.BlockIndex) > headNum:
+				addKnown("C38-linked-canon-above-head-header", "GetCanonicalTransaction(tx %d) answers block #%d above head #%d", t, alk.BlockIndex, headNum)
+			case op.splitBefore && (op.kind == 0 || op.kind == 1 || op.kind == 2) && (tx == nil || bh != alk.BlockHash) &&
+				int(alk.BlockIndex) < len(op.before) && w.blocks[op.before[alk.BlockIndex]].Hash() == alk.BlockHash:
+				// writeHeadBlock replaced the canonical block at its height without a reorg (head block
+				// below head header): markers are fixed up (337872da5f) but txLookupCache is not purged
+				w.staleAPI[t] = alk.BlockHash
+				addKnown("C38-stale-txlookup-cache-after-head-replace", "GetCanonicalTransaction(tx %d) still answers block %d (#%d), canonical before the operation, not any more", t, w.id(alk.BlockHash), alk.BlockIndex)
+			default:
+				addReal("GetCanonicalTransaction(tx %d) answers block %d (#%d), which is not the canonical block holding it", t, w.id(alk.BlockHash), alk.BlockIndex)
+			}
+		} else if delete(w.staleAPI, t); isCanon && tx != nil {
+			addReal("GetCanonicalTransaction(tx %d) answers nothing although the tx is in canonical block #%d", t, n)
+		}
 		// database level: an entry points to the canonical block holding the tx
 		ent := rawdb.ReadTxLookupEntry(w.db, h)
 		if ent == nil || w.shStale[t] != int(*ent) {
@@ -597,6 +629,35 @@ func (w *world) oracle(e evs, op opInfo, res *Result) (real, known []string) {
 			addKnown("C38-linked-canon-above-head-header", "lookup entry of tx %d points to block #%d above head #%d", t, *ent, headNum)
 		default:
 			addReal("lookup entry of tx %d points to #%d, which does not hold it canonically", t, *ent)
+		}
+	}
+	// the cached block / header / receipt readers agree with the database
+	for n := 0; n <= w.cs.maxn+1; n++ {
+		chash := rawdb.ReadCanonicalHash(w.db, uint64(n))
+		hd, blk := w.bc.GetHeaderByNumber(uint64(n)), w.bc.GetBlockByNumber(uint64(n))
+		wantHd := chash != (common.Hash{}) && rawdb.HasHeader(w.db, chash, uint64(n))
+		wantBlk := wantHd && rawdb.HasBody(w.db, chash, uint64(n))
+		if (hd != nil) != wantHd || (hd != nil && hd.Hash() != chash) {
+			addReal("GetHeaderByNumber(%d) disagrees with the canonical index", n)
+		}
+		if (blk != nil) != wantBlk || (blk != nil && blk.Hash() != chash) {
+			addReal("GetBlockByNumber(%d) disagrees with the canonical index", n)
+		}
+	}
+	for i := range w.cs.blocks {
+		id := w.cs.blocks[i].id
+		b := w.blocks[id]
+		num := b.NumberU64()
+		stored := rawdb.HasHeader(w.db, b.Hash(), num) && rawdb.HasBody(w.db, b.Hash(), num)
+		if w.bc.HasBlock(b.Hash(), num) != stored || (w.bc.GetBlockByHash(b.Hash()) != nil) != stored || (w.bc.GetBlock(b.Hash(), num) != nil) != stored {
+			addReal("HasBlock/GetBlock(block %d) disagree with the database (stored=%v)", id, stored)
+		}
+		if (w.bc.GetHeaderByHash(b.Hash()) != nil) != rawdb.HasHeader(w.db, b.Hash(), num) {
+			addReal("GetHeaderByHash(block %d) disagrees with the database", id)
+		}
+		wantRc := id != 0 && rawdb.HasHeader(w.db, b.Hash(), num) && rawdb.HasReceipts(w.db, b.Hash(), num)
+		if rc := w.bc.GetReceiptsByHash(b.Hash()); id != 0 && ((rc != nil) != wantRc || (rc != nil && len(rc) != len(b.Transactions()))) {
+			addReal("GetReceiptsByHash(block %d) disagrees with the database (stored=%v)", id, wantRc)
 		}
 	}
 	// logs: a subscriber applying removed/added events holds exactly the canonical logs
@@ -696,7 +757,7 @@ func (w *world) oracle(e evs, op opInfo, res *Result) (real, known []string) {
 
 func run(c Sx) Result {
 	cs := parseCase(c)
-	w := &world{cs: cs, db: rawdb.NewMemoryDatabase(), gspec: genesisSpec(), view: map[int64]int{}, shStale: map[int]int{}, shReported: map[int]bool{}}
+	w := &world{cs: cs, db: rawdb.NewMemoryDatabase(), gspec: genesisSpec(), view: map[int64]int{}, shStale: map[int]int{}, shReported: map[int]bool{}, staleAPI: map[int]common.Hash{}}
 	// The tx indexer runs (TxLookupLimit = 0) over a database marked as fully indexed
 	// (tail 0): its background pass then has nothing to write, so every lookup entry
 	// observed is one maintained synchronously by writeHeadBlock / reorg.  (With the tail
@@ -718,7 +779,8 @@ func run(c Sx) Result {
 		before, _ := w.canonChain()
 		var class int64
 		kind := AsInt(f[0])
-		info := opInfo{idx: oi, kind: kind, before: before, knownBefore: map[int]bool{}}
+		info := opInfo{idx: oi, kind: kind, before: before, knownBefore: map[int]bool{},
+			splitBefore: w.bc.CurrentBlock().Hash() != w.bc.CurrentHeader().Hash()}
 		noteKnown := func(id int, b *types.Block) {
 			if w.bc.HasBlockAndState(b.Hash(), b.NumberU64()) {
 				info.knownBefore[id] = true
@@ -810,7 +872,7 @@ func run(c Sx) Result {
 	// prefix can never hide one of them
 	// (and the rarer recorded deviations before the frequent ones, so each gets listed)
 	prio := func(m string) int {
-		for i, id := range []string{"C38-linked-canon", "C38-setcanonical", "C38-known-reimport", "C38-sethead-no-removed", "C38-sethead-stale"} {
+		for i, id := range []string{"C38-stale-txlookup", "C38-linked-canon", "C38-setcanonical", "C38-known-reimport", "C38-sethead-no-removed", "C38-sethead-stale"} {
 			if strings.HasPrefix(m, id) {
 				return i
 			}
